@@ -53,6 +53,16 @@ def _look(table, ident, what):
     return table[ident]
 
 
+def _guard(body, fn):
+    """is the nested counting emitter of fn skipped when the manager itself only counts?
+    -> 'false' (nested pass only in the emitting pass) | 'true' (nested pass in every pass)"""
+    if "IsCounting" not in body:
+        return "true"
+    if re.search(r"if\s*\(\s*!\s*manager\s*\.\s*IsCounting\s*\(\s*\)\s*\)\s*\{[^{}]*ScriptCountManager\s+countManager\s*;[^{}]*ScriptEmitter\s+emitter\s*\([^{}]*emitter\s*\.\s*EmitRoot\s*\(\s*val\s*\)\s*;[^{}]*\}", body):
+        return "false"
+    raise TranslatorError("%s: IsCounting() is used in a shape the model does not know" % fn)
+
+
 def _flag(body, name, fn):
     """how the nested emitter of fn gets its flag: emitter.<name> = true | false | <name>; absent = the Reset() default false"""
     ms = re.findall(r"emitter\s*\.\s*%s\s*=\s*(\w+)\s*;" % name, body)
@@ -154,6 +164,7 @@ def translate(repo=None):
         out.append("Definition switch_sub_depth : N := %s.   (* EmitSwitch: ScriptEmitter emitter(countManager, .., info, %s) *)" % (m.group(1), m.group(1)))
     else:
         out.append("Definition switch_sub_depth : N := 18446744073709551615.   (* EmitSwitch: ScriptEmitter emitter(countManager, .., info): default maxDepth *)")
+    out.append("Definition switch_sub_in_counting_pass : bool := %s.   (* is EmitSwitch's nested count also run when the manager only counts? *)" % _guard(b, "EmitSwitch"))
     out.append("Definition switch_sub_canbreak := %s." % _flag(b, "canBreak", "EmitSwitch"))
     out.append("Definition switch_sub_cancontinue := %s." % _flag(b, "canContinue", "EmitSwitch"))
     if not re.search(r"iStartBreakJumpLocCount\s*=\s*iBreakJumpLocCount\s*;", b) or \
@@ -162,10 +173,19 @@ def translate(repo=None):
     b = _body(c, "void ScriptEmitter::EmitCatch(")
     if not re.search(r"ScriptEmitter\s+emitter\s*\(\s*countManager\s*,\s*\*?\s*stateScript\s*,\s*info\s*\)\s*;", b):
         raise TranslatorError("EmitCatch: nested emitter construction changed")
+    out.append("Definition catch_sub_in_counting_pass : bool := %s." % _guard(b, "EmitCatch"))
     out.append("Definition catch_sub_canbreak := %s." % _flag(b, "canBreak", "EmitCatch"))
     out.append("Definition catch_sub_cancontinue := %s." % _flag(b, "canContinue", "EmitCatch"))
     if not re.search(r"emitter\s*\.\s*EmitRoot\s*\(\s*val\s*\)\s*;[\s\S]*EmitValue\s*\(\s*val\s*\)\s*;", b):
         raise TranslatorError("EmitCatch: the body is no longer emitted once by the nested emitter and once for real")
+    # which managers count
+    if "IsCounting" in c:
+        if not re.search(r"virtual\s+bool\s+IsCounting\s*\(\s*\)\s*const\s*\{\s*return\s+false\s*;\s*\}", h):
+            raise TranslatorError("IScriptManager::IsCounting default changed")
+        cm = _body(c, "class mfuse::ScriptCountManager")
+        pm = _body(c, "class mfuse::ScriptProgramManager")
+        if not re.search(r"bool\s+IsCounting\s*\(\s*\)\s*const\s+override\s*\{\s*return\s+true\s*;\s*\}", cm) or "IsCounting" in pm:
+            raise TranslatorError("IsCounting overrides changed: the model assumes count manager = true, program manager = false")
     m = re.search(r"ScriptEmitter\s*\(\s*IScriptManager\s*&\s*\w+\s*,\s*StateScript\s*[&*]\s*\w+\s*,\s*const\s+OutputInfo\s*\*\s*\w+\s*,\s*size_t\s+maxDepth\s*=\s*-1\s*\)", h)
     if not m:
         raise TranslatorError("ScriptEmitter constructor: default maxDepth changed")
